@@ -8,3 +8,11 @@ func init() {
 	props["C01"] = propCfg{Level: "exploration", Assume: common,
 		Rule: "cases: every labeled ordered forest up to the tier's node bound over {a,b} x spellings x 6 branch tuples x 3 code paths, plus seeded random forests over all name classes; one evaluation = one real Output call compared byte-wise with the reference renderer; distinct key = hash(forest, spelling, branch tuple, entry point); non-trivial = merged forest has >= 3 nodes and (depth >= 2 or a merged sibling)"}
 }
+
+func init() {
+	common := []string{
+		"the harness's reference model (model/) and malformation injector are a correct reading of the property statement",
+	}
+	props["C02"] = propCfg{Level: "exploration", Assume: common,
+		Rule: "cases: every labeled forest up to the node bound in 5 bullet-root spellings, well-formed (must be accepted and complete in text/json/yaml/toml/dry-run/walk, simple iterator, simple non-iterator and massive) and with one injected malformed line of each class M1..M6 at every line position (must be rejected; M1/M3/M4 rejections must contain the row), plus seeded random larger documents with one injection; distinct key = hash(forest, spelling, class, position, variant, entry/mode); non-trivial = an injected document, or a well-formed forest with >= 2 nodes"}
+}
